@@ -44,8 +44,10 @@ def make_spec(layout):
             'restarts': [
                 {'its': {0: [S * i for i in (0, 2, 4)],
                          1: [S * i for i in (0, 1, 2, 3, 4)]}, 'boxes': bx},
+                # (the user added HydroBase::rho to the output at the restart)
                 {'its': {0: [S * i for i in (4, 6, 8)],
-                         1: [S * i for i in (4, 5, 6, 7, 8)]}, 'boxes': bx}]}
+                         1: [S * i for i in (4, 5, 6, 7, 8)]}, 'boxes': bx,
+                 'variables': VARS + ['rho']}]}
 
 
 def build_pristine(layout, root):
@@ -137,8 +139,18 @@ class System:
                          f"{op}: it column {got_it}, expected "
                          f"{[a[0] for a in avail]}"))
         else:
-            for key, ev in expand_request(V):
+            for key, ev in expand_request(
+                    [v for v in V if v not in ('t', 'it')]):
                 col = data.get(key)
+                has = [ev in self.spec['restarts'][r].get('variables', VARS)
+                       for _, r in avail]
+                if not any(has):
+                    # the restart(s) do not hold this variable: as for an
+                    # uncached read, the column is absent or all None
+                    if col is not None and any(x is not None for x in col):
+                        viol.append(("C12:returned:unavailable-variable",
+                                     f"{op}: column {key} holds data"))
+                    continue
                 if col is None or len(col) != len(avail):
                     viol.append(("C12:returned:column-length",
                                  f"{op}: column {key} "
@@ -224,6 +236,12 @@ def ops_menu(kind):
         ops.append(('read', (0,), ('betaz',), 0, True, -1))
         ops.append(('read', (0, 2 * S), ('betaup3',), 0, True, -1))
         ops.append(('read', (4 * S, 2 * S, 0), ('gammadown3',), 0, True, 0))
+        # the time column named explicitly, in both positions
+        ops.append(('read', (0, 2 * S), ('t', 'gxx'), 0, True, -1))
+        ops.append(('read', (2 * S, 4 * S), ('gxx', 't'), 0, True, -1))
+        # a variable that only the second restart holds
+        ops.append(('read', (0, 2 * S), ('gxx', 'rho0'), 0, True, -1))
+        ops.append(('read', (6 * S, 8 * S), ('rho0',), 0, True, -1))
         # a component named twice (through its tensor and by itself)
         ops.append(('read', (2 * S, 4 * S), ('betaup3', 'betax'), 0, True,
                     -1))
@@ -241,7 +259,10 @@ def ops_menu(kind):
                ('read', (2, 4), ('gxx', 'alpha'), 0, False, -1),
                ('read', (2,), ('gzz',), 0, True, -1),
                ('read', (0,), ('betaz',), 0, True, -1),
-               ('read', (2, 4), ('betaup3', 'betax'), 0, True, -1)]
+               ('read', (2, 4), ('betaup3', 'betax'), 0, True, -1),
+               ('read', (0, 2), ('t', 'gxx'), 0, True, -1),
+               ('read', (0, 2), ('gxx', 'rho0'), 0, True, -1),
+               ('read', (0, 2), ('gxx', 'rho0'), 0, False, -1)]
         ops = [(o[0], tuple(S * i for i in o[1])) + o[2:] for o in ops]
     return ops
 
